@@ -754,8 +754,15 @@ Lemma nrf_quantify_body u bn qvars fa :
   nrf (q <- map_to_level_set bn qvars ;; s <- get ;;
        r <- quantify_rec (S (S (nvars s))) u (sorted_levels q) q fa ∅ ;; ret (fst r)).
 Proof. nrf; [apply nrf_map_to_level_set|apply nrf_quantify_rec]. Qed.
-Lemma nrf_quantify u bn qvars fa : nrf (quantify u bn qvars fa).
+Lemma nrf_var_at_level' v : nrf (var_at_level v).
+Proof. unfold var_at_level. nrf. Qed.
+Lemma nrf_quantify_names u qvars fa : nrf (quantify_names u qvars fa).
 Proof. apply nrf_try_to_reorder, nrf_quantify_body. Qed.
+Lemma nrf_quantify u bn qvars fa : nrf (quantify u bn qvars fa).
+Proof.
+  destruct bn; [apply nrf_quantify_names|]. unfold quantify.
+  nrf; [apply nrf_map_to_level_set|apply nrf_var_at_level'|apply nrf_quantify_names].
+Qed.
 
 Lemma quantify_rec_total s u q fa fuel r s' :
   Inv s → last_len s = None → nvars s < fuel →
@@ -771,13 +778,21 @@ Proof.
     injection Hrun as <- <-. by apply safe_refl.
 Qed.
 
-Lemma tsafe_quantify u bn qvars fa : tsafe (quantify u bn qvars fa).
+Lemma tsafe_quantify_names u qvars fa : tsafe (quantify_names u qvars fa).
 Proof.
   apply tsafe_try_to_reorder; [apply nrf_quantify_body|].
   apply tsafe_bind; [apply tsafe_pure, pure_map_to_level_set|intros q].
   apply tsafe_bind_get. intros s r s' HI Hl H.
   apply bind_fst_state in H as [r0 H].
   apply (quantify_rec_total s u q fa (S (S (nvars s))) r0 s'); try done. lia.
+Qed.
+
+Lemma tsafe_quantify u bn qvars fa : tsafe (quantify u bn qvars fa).
+Proof.
+  destruct bn; [apply tsafe_quantify_names|]. unfold quantify.
+  apply tsafe_bind; [apply tsafe_pure, pure_map_to_level_set|intros q].
+  apply tsafe_bind; [|intros names; apply tsafe_quantify_names].
+  apply tsafe_pure, pure_mapM. intros l. apply pure_var_at_level.
 Qed.
 
 (** *** [cofactor] *)
@@ -792,12 +807,17 @@ Lemma nrf_cofactor_body u bn values :
        ensure EValue (mem u s) ;;;
        r <- cofactor_rec (S (S (nvars s))) u (sorted_levels (dom lv)) lv ∅ ;; ret (fst r)).
 Proof. nrf; [apply nrf_map_to_level_dict|apply nrf_cofactor_rec]. Qed.
-Lemma nrf_cofactor u bn values : nrf (cofactor u bn values).
+Lemma nrf_cofactor_names u values : nrf (cofactor_names u values).
 Proof. apply nrf_try_to_reorder, nrf_cofactor_body. Qed.
-
-Lemma tsafe_cofactor u bn values : tsafe (cofactor u bn values).
+Lemma nrf_cofactor u bn values : nrf (cofactor u bn values).
 Proof.
-  apply tsafe_try_to_reorder; [apply nrf_cofactor_body|].
+  destruct bn; [apply nrf_cofactor_names|]. unfold cofactor.
+  nrf; [apply nrf_map_to_level_dict|apply nrf_var_at_level'|apply nrf_cofactor_names].
+Qed.
+
+Lemma tsafe_cofactor_names u values : tsafe (cofactor_names u values).
+Proof.
+  apply tsafe_try_to_reorder; [apply (nrf_cofactor_body u true)|].
   apply tsafe_bind; [apply tsafe_pure, pure_map_to_level_dict|intros lv].
   apply tsafe_bind_get. intros s r s' HI Hl H.
   destruct (mem u s) eqn:Hm; cbn [ensure] in H; cycle 1.
@@ -807,6 +827,14 @@ Proof.
   apply (cofactor_rec_safe (S (S (nvars s))) s u (sorted_levels (dom lv)) lv ∅ r0 s' HI Hm);
     [|apply Cofactor.cache_ok_empty|lia|done].
   intros k Hk _. apply elem_of_sorted_levels. by apply elem_of_dom.
+Qed.
+Lemma tsafe_cofactor u bn values : tsafe (cofactor u bn values).
+Proof.
+  destruct bn; [apply tsafe_cofactor_names|]. unfold cofactor.
+  apply tsafe_bind; [apply tsafe_pure, pure_map_to_level_dict|intros lv].
+  apply tsafe_bind; [|intros nv; apply tsafe_cofactor_names].
+  apply tsafe_pure, pure_mapM. intros [l a].
+  apply pure_bind; [apply pure_var_at_level|intros v; apply pure_ret].
 Qed.
 
 (** *** [compose] *)
